@@ -16,7 +16,8 @@ MissingOperand == <<"put 5 into", "say", "put into foo", "let foo be", "build up
                     "foo taking", "if", "while", "until", "give back", "listen to", "foo takes", "put 5 plus into foo", "say 1 plus",
                     "say foo at", "say not", "join foo with", "cut foo into", "say foo is", "say foo and", "rock foo with", "roll foo into",
                     "let foo at be 5", "foo taking 1,", "say 1 over", "let foo be with", "say foo is as big as", "say -", "foo is", "foo says",
-                    "foo says\r", "foo is\r", "say\r", "put 5 into\r">>     \* the same with a carriage return before the line end
+                    "foo says\r", "foo is\r", "say\r", "put 5 into\r",
+                    "say foo taking 1 and", "foo taking bar &", "foo takes bar and", "foo taking 1, 2,", "say foo taking 1, and">>     \* the same with a carriage return before the line end
 MissingKeyword == <<"put 5 foo", "let foo 5", "build foo", "knock foo", "build foo down", "turn foo", "say foo is bigger bar",
                     "say foo is as big bar", "say foo is as bar", "take it to top", "take it the top", "take to the top", "break it",
                     "take it to the", "put 5 in to foo", "let foo be 5 into bar">>
